@@ -547,6 +547,7 @@ func (g *vcgen) unop(x *ssa.UnOp) {
 func (g *vcgen) load(x *ssa.UnOp) {
 	elem := x.Type()
 	if gl, ok := x.X.(*ssa.Global); ok {
+		g.globalLockCheck(gl, "read")
 		if _, isS := elem.Underlying().(*types.Struct); isS && isDecomposedStruct(elem) {
 			g.setVal(x, g.loadStructIn(g.st, g.globalAddr(gl), elem))
 			return
@@ -612,6 +613,7 @@ func (g *vcgen) store(x *ssa.Store) {
 	v := g.val(x.Val)
 	elem := x.Val.Type()
 	if gl, ok := x.Addr.(*ssa.Global); ok {
+		g.globalLockCheck(gl, "write")
 		if _, isS := elem.Underlying().(*types.Struct); isS && isDecomposedStruct(elem) {
 			g.storeStruct(g.globalAddr(gl), elem, v)
 			return
